@@ -295,9 +295,56 @@ func gateWindow(op string) gateOut {
 	return out
 }
 
+// gateBoth: WithBlockingExecution together with WithWorkerLimit(n) is blocking execution (the limit is ignored): a 10 ms
+// job and a run-once job must simply run.
+func gateBoth(workers int) gateOut {
+	out := gateOut{Scenario: "both", Op: "none", Workers: workers, WorkersBusy: true}
+	log := &evlog{}
+	s, err := quartz.NewStdScheduler(quartz.WithBlockingExecution(), quartz.WithWorkerLimit(workers), quartz.WithOutdatedThreshold(time.Minute))
+	if err != nil {
+		panic(err)
+	}
+	ctx, cancel := context.WithCancel(context.Background())
+	defer cancel()
+	s.Start(ctx)
+	key := quartz.NewJobKey("both")
+	j := &rjob{key: keyStr(key), log: log}
+	t := newSimple(1, int64(10*time.Millisecond))
+	t.log, t.key = log, j.key
+	onceKey := quartz.NewJobKey("once")
+	once := &rjob{key: keyStr(onceKey), log: log}
+	ot := newOnce(2, int64(20*time.Millisecond), false)
+	ot.log, ot.key = log, once.key
+	if err := s.ScheduleJob(quartz.NewJobDetail(j, key), t); err != nil {
+		panic(err)
+	}
+	if err := s.ScheduleJob(quartz.NewJobDetail(once, onceKey), ot); err != nil {
+		panic(err)
+	}
+	time.Sleep(400 * time.Millisecond)
+	done := make(chan struct{})
+	go func() { _ = s.DeleteJob(key); close(done) }()
+	select {
+	case <-done:
+	case <-time.After(10 * time.Second):
+		out.OpResult = "delete did not return"
+	}
+	quiet(400*time.Millisecond, 10*time.Second, func() int64 { return j.count.Load() + trigCalls(log, j.key) + once.count.Load() })
+	out.OnceListed = listed(s, onceKey)
+	s.Stop()
+	wctx, wcancel := context.WithTimeout(context.Background(), 20*time.Second)
+	s.Wait(wctx)
+	wcancel()
+	out.Events = log.take()
+	out.Execs = j.count.Load()
+	out.OnTimeCalls = onTime(out.Events, j.key)
+	out.OnceExecs = once.count.Load()
+	return out
+}
+
 func cmdGate(args []string) {
 	if len(args) < 2 {
-		fmt.Fprintln(os.Stderr, "usage: schedh gate pool <pause|delete|clear|none> <workers> | gate window <clear|delete|pause>")
+		fmt.Fprintln(os.Stderr, "usage: schedh gate pool <pause|delete|clear|none> <workers> | gate window <clear|delete|pause> | gate both <workers>")
 		os.Exit(2)
 	}
 	var out gateOut
@@ -310,6 +357,9 @@ func cmdGate(args []string) {
 		out = gatePool(args[1], w)
 	case "window":
 		out = gateWindow(args[1])
+	case "both":
+		w, _ := strconv.Atoi(args[1])
+		out = gateBoth(w)
 	default:
 		fmt.Fprintln(os.Stderr, "unknown gate scenario", args[0])
 		os.Exit(2)
